@@ -16,6 +16,13 @@ Oracles
   after every step the real file is compared shallowly (keys/len, no lazy child
   is touched) and a serialise -> deserialise *snapshot* of it is compared deeply
   with the dict, so the real object keeps its lazy children for the next op.
+  Where neither the property nor a docstring fixes the answer, every conforming
+  answer is accepted and recorded as a label (deleting the last column of a
+  category: ValueError or done; a file holding a category without columns:
+  refused or written; a child stored under a second key: by reference or
+  copied; a child of the wrong level / a serialised dict as value: refused or
+  taken; "no mask" vs. an all-PRESENT mask: the same table) - on each branch
+  the state afterwards is still compared with the model.
 """
 
 import copy
@@ -30,9 +37,13 @@ PROPERTY = "C06"
 RULE = (
     "tables: 1..4 columns x 1..5 rows of strings over an alphabet over-weighting blank, tab, both "
     "quotes, leading _ # ; $ [ ], newline, reserved words (any case), '.'/'?' inside longer strings and "
-    "the empty string, with all three mask states; non-trivial = looped (>= 2 rows) and >= 1 value that "
+    "the empty string, with all three mask states (printable strings only: characters for which "
+    "str.isprintable() is False other than blank/tab/newline - NBSP, form feed, CR, other Unicode "
+    "white space - are outside the quantifier and not generated; names in one container differ in "
+    "more than case); non-trivial = looped (>= 2 rows) and >= 1 value that "
     "must be quoted or written as text field.  containers: op-lists of set/get/del/iter/len/contains/"
-    "==/keys/items interleaved with serialise->deserialise; non-trivial = >= 1 successful delete or set "
+    "==/keys/items/pop/setdefault/update/clear interleaved with serialise->deserialise; non-trivial = "
+    ">= 1 successful delete or set "
     "on a container reached through lazily parsed children after a round trip"
 )
 
@@ -83,13 +94,16 @@ def in_f2(v):
     return any(l.lstrip(" \t").startswith(";") for l in v.split("\n")[1:])
 
 
-def narrow(v):
+def narrow(v, always_f2=False):
     """Map a value out of the input classes of the *open* findings (by construction, no filter).
 
-    Returns (value, [ids of the findings the original value belonged to])."""
+    Returns (value, [ids of the findings the original value belonged to]).  With `always_f2` the
+    C06-F2 class is left even when that finding is closed (container histories: a closed F2 may
+    mean that such a value is refused at serialisation, which is not what the histories are about)."""
     hit = []
-    if findings.is_open(F2) and in_f2(v):
-        hit.append(F2)
+    if (always_f2 or findings.is_open(F2)) and in_f2(v):
+        if findings.is_open(F2):
+            hit.append(F2)
         lines = v.split("\n")
         v = "\n".join([lines[0]] + [("x" + l.lstrip(" \t")) if l.lstrip(" \t").startswith(";") else l for l in lines[1:]])
     if findings.is_open(F1) and in_f1(v):
@@ -108,8 +122,11 @@ def narrow(v):
 
 
 def _case_values(case):
-    """All strings stored in a case of any sub-check (for the finding predicates)."""
+    """All strings that are *written* by a case of any sub-check (for the finding predicates):
+    the tables / the initial file and the ops.  Descriptive entries such as ``token`` (the
+    un-narrowed token of an enumeration case) are not looked at."""
     found = []
+    case = [case.get("blocks"), case.get("init"), case.get("ops")] if isinstance(case, dict) else case
 
     def walk(x):
         if isinstance(x, str):
@@ -227,10 +244,12 @@ def st_tables(tier):
         cells = iter(cells)
 
         def fresh(used):
+            # (names differing only in case count as a clash: CIF data names are case-insensitive
+            # by the format definition, so two of them in one container are not asked for)
             i = next(raw_names)
-            while NAME_POOL[i] in used:
+            while NAME_POOL[i].lower() in used:
                 i = (i + 1) % len(NAME_POOL)
-            used.add(NAME_POOL[i])
+            used.add(NAME_POOL[i].lower())
             return NAME_POOL[i]
 
         blocks = []
@@ -314,32 +333,35 @@ def _compare_cif_file(o, f, blocks, how, clause_override=None):
         ):
             return False
         for c in b["cats"]:
-            cat = blk[c["name"]]
-            where = f"{how}: {b['name']!r}/{c['name']!r}"
-            if not o.check_eq(list(cat.keys()), [col["name"] for col in c["cols"]], cl("names_and_order"), f"{where} columns"):
+            if not _compare_cif_category(o, blk[c["name"]], c, f"{how}: {b['name']!r}/{c['name']!r}", cl):
                 return False
-            nrow = len(c["cols"][0]["cells"])
-            o.check_eq(cat.row_count, nrow, cl("same_rows"), f"{where} row_count")
-            for col in c["cols"]:
-                want, states = _expected_column(col)
-                column = cat[col["name"]]
-                got = column.as_array(str).tolist()
-                o.check_eq(got, want, cl("values_unchanged"), f"{where}/{col['name']!r}")
-                # the other spellings of "a string dtype" give the same strings
-                for spelling, dt in (("np.str_", np.str_), ("'U'", "U"), ("np.dtype(str)", np.dtype(str))):
-                    o.check_eq(
-                        column.as_array(dt).tolist(), want, cl("values_unchanged"), f"{where}/{col['name']!r} as_array({spelling})"
-                    )
-                o.check_eq(
-                    column.as_array(np.str_, masked_value="~").tolist(),
-                    [w if st == 0 else "~" for w, st in zip(want, states)],
-                    cl("values_unchanged"),
-                    f"{where}/{col['name']!r} as_array(np.str_, masked_value='~')",
-                )
-                gmask = [0] * len(column) if column.mask is None else [int(m) for m in column.mask.array.tolist()]
-                o.check_eq(gmask, states, cl("masks_unchanged"), f"{where}/{col['name']!r} mask")
-                if nrow == 1 and len(got) == 1:
-                    o.check_eq(column.as_item(), want[0], cl("values_unchanged"), f"{where}/{col['name']!r} as_item")
+    return True
+
+
+def _compare_cif_category(o, cat, c, where, cl):
+    """Compare a parsed CIFCategory with its table spec.  Returns False if the column names differ."""
+    if not o.check_eq(list(cat.keys()), [col["name"] for col in c["cols"]], cl("names_and_order"), f"{where} columns"):
+        return False
+    nrow = len(c["cols"][0]["cells"])
+    o.check_eq(cat.row_count, nrow, cl("same_rows"), f"{where} row_count")
+    for col in c["cols"]:
+        want, states = _expected_column(col)
+        column = cat[col["name"]]
+        got = column.as_array(str).tolist()
+        o.check_eq(got, want, cl("values_unchanged"), f"{where}/{col['name']!r}")
+        # the other spellings of "a string dtype" give the same strings
+        for spelling, dt in (("np.str_", np.str_), ("'U'", "U"), ("np.dtype(str)", np.dtype(str))):
+            o.check_eq(column.as_array(dt).tolist(), want, cl("values_unchanged"), f"{where}/{col['name']!r} as_array({spelling})")
+        o.check_eq(
+            column.as_array(np.str_, masked_value="~").tolist(),
+            [w if st == 0 else "~" for w, st in zip(want, states)],
+            cl("values_unchanged"),
+            f"{where}/{col['name']!r} as_array(np.str_, masked_value='~')",
+        )
+        gmask = [0] * len(column) if column.mask is None else [int(m) for m in column.mask.array.tolist()]
+        o.check_eq(gmask, states, cl("masks_unchanged"), f"{where}/{col['name']!r} mask")
+        if nrow == 1 and len(got) == 1:
+            o.check_eq(column.as_item(), want[0], cl("values_unchanged"), f"{where}/{col['name']!r} as_item")
     return True
 
 
@@ -354,7 +376,11 @@ def _label_tables(o, case):
             nrow = len(c["cols"][0]["cells"])
             ncol = len(c["cols"])
             kinds.add("looped" if nrow > 1 else "single_row")
-            kinds.add(f"rows={nrow}")
+            kinds.add(f"rows={nrow}" if nrow < 60 else "rows>=128" if nrow >= 128 else "rows=60..127")
+            if nrow >= 128:
+                flat = [v for col in c["cols"] for state, v in col["cells"] if state == 0]
+                if any("\n" in v for v in flat) and not any("'" in v or '"' in v for v in flat):
+                    kinds.add("rows>=128,text_field,no_quote_char")
             kinds.add(f"cols={ncol}")
             for j, col in enumerate(c["cols"]):
                 if col["explicit_mask"]:
@@ -394,6 +420,7 @@ def _label_tables(o, case):
 
 
 def run_table_roundtrip(case):
+    from biotite.file import SerializationError
     from biotite.structure.io.pdbx import CIFFile
 
     o = Outcome()
@@ -411,10 +438,20 @@ def run_table_roundtrip(case):
     _label_tables(o, case)
 
     f = _build_cif_file(blocks)
-    text = f.serialize()
+    try:
+        text = f.serialize()
+    except SerializationError:
+        # A continuation line starting with ';' cannot be written as a CIF 1.1 text field at all:
+        # once C06-F2 is closed (no narrowing any more) refusing such a value at serialisation is
+        # a conforming answer; for every other table the error is a violation.
+        if any(state == 0 and in_f2(v) for b in blocks for c in b["cats"] for col in c["cols"] for state, v in col["cells"]):
+            o.label("f2_value_refused_at_serialize")
+            return o
+        raise
     sio = io.StringIO()
     f.write(sio)
-    o.check_eq(sio.getvalue(), text, "write_equals_serialize", "text written to StringIO")
+    # (not promised by either docstring, hence a label only: write() emits exactly serialize())
+    o.label("write_text==serialize" if sio.getvalue() == text else "write_text!=serialize")
     # 1. serialize -> deserialize
     parsed = CIFFile.deserialize(text)
     ok = _compare_cif_file(o, parsed, blocks, "deserialize(serialize())")
@@ -426,7 +463,47 @@ def run_table_roundtrip(case):
     if ok and o.ok:
         again = CIFFile.deserialize(parsed.serialize())
         _compare_cif_file(o, again, blocks, "second round trip", clause_override="second_roundtrip")
+    # 4. the documented direct use of the lower levels: a block / a category with a manually set
+    #    name is serialised and parsed on its own
+    if o.ok:
+        _direct_lower_levels(o, blocks, parsed)
     return o
+
+
+def _direct_lower_levels(o, blocks, parsed):
+    from biotite.structure.io.pdbx import CIFBlock, CIFCategory
+
+    def cl(name):
+        return name
+
+    # (one block and its largest category per case: the code below the entry points is the one of
+    # the file-level round trip, only the entry differs)
+    b = blocks[0]
+    blk = _build_cif_file([b])[b["name"]]
+    blk.name = b["name"]
+    blk2 = CIFBlock.deserialize(blk.serialize())
+    if o.check_eq(
+        list(blk2.keys()), [c["name"] for c in b["cats"]], "names_and_order", f"CIFBlock.deserialize(block.serialize()): categories of {b['name']!r}"
+    ):
+        for c in b["cats"]:
+            _compare_cif_category(o, blk2[c["name"]], c, f"CIFBlock.deserialize(block.serialize()): {b['name']!r}/{c['name']!r}", cl)
+    c = max(b["cats"], key=lambda c: len(c["cols"]) * len(c["cols"][0]["cells"]))
+    cat = _build_cif_file([{"name": "x", "cats": [c]}])["x"][c["name"]]
+    cat.name = c["name"]
+    cat2 = CIFCategory.deserialize(cat.serialize())
+    _compare_cif_category(o, cat2, c, f"CIFCategory.deserialize(category.serialize()): {c['name']!r}", cl)
+    o.label("direct_block_and_category_roundtrip")
+    # CIFFile.block: the sole block; "if the file contains multiple blocks, an exception is raised"
+    if len(blocks) == 1:
+        o.check_eq(list(parsed.block.keys()), [c["name"] for c in blocks[0]["cats"]], "names_and_order", "CIFFile.block of a one-block file")
+        o.label("file.block_single")
+    else:
+        try:
+            got = parsed.block
+        except Exception:
+            o.label("file.block_multi_raises")
+        else:
+            o.fail("sole_block", f"CIFFile.block of a file with {len(blocks)} blocks returned {type(got).__name__}")
 
 
 # ---- (b) enumeration: each awkward token at each position ---------------------
@@ -568,8 +645,6 @@ class CIFFlavour:
     def column_payload(self, raw, rows):
         return [v for v in raw["values"][:rows]]
 
-    last_column_delete_raises = True
-
 
 class BCIFFlavour:
     name = "bcif"
@@ -609,13 +684,15 @@ class BCIFFlavour:
         bio.seek(0)
         return File.read(bio)
 
+    # "no mask" and "every row PRESENT" are the same table (as for the text flavour, where the
+    # constructor itself drops such a mask): both are shown as a list of zeros
     def column_view(self, column):
         arr = column.data.array.tolist()
-        mask = None if column.mask is None else [int(m) for m in column.mask.array.tolist()]
+        mask = [0] * len(arr) if column.mask is None else [int(m) for m in column.mask.array.tolist()]
         return arr, mask
 
     def model_column_view(self, p):
-        return list(p["data"]), (None if p["mask"] is None else list(p["mask"]))
+        return list(p["data"]), ([0] * len(p["data"]) if p["mask"] is None else list(p["mask"]))
 
     def column_payload(self, raw, rows):
         if raw["ints"] is not None:
@@ -625,13 +702,11 @@ class BCIFFlavour:
         mask = None if raw["mask"] is None else raw["mask"][:rows]
         return {"data": list(data), "mask": mask}
 
-    last_column_delete_raises = False
-
 
 # ---- strategies for op-lists ------------------------------------------------
 def st_history_value():
     def nar(v):
-        return narrow(v)[0]
+        return narrow(v, always_f2=True)[0]
 
     return st.one_of(st.sampled_from(HISTORY_VALUES), st.sampled_from(HISTORY_VALUES), st_raw_value().map(nar))
 
@@ -684,6 +759,9 @@ def st_ops(tier):
         st.tuples(st.just("get_default"), level, path),
         st.tuples(st.just("alias"), st.sampled_from([0, 1]), path, idx, idx),
         st.tuples(st.just("set_wrong_type"), st.sampled_from([0, 1]), path, idx),
+        # the mix-in methods of a mutable mapping (they run through the overridden primitives)
+        st.tuples(st.just("pop"), level, path, idx, missing),
+        st.tuples(st.sampled_from(["setdefault", "update", "update", "clear"]), level, path, idx, idx),
     )  # fmt: skip
     max_ops = 12 if tier == "quick" else 30
     # Equality of binary containers depends on whether their encodings were resolved by an
@@ -751,6 +829,20 @@ def _has_empty_category(model):
     return any(len(cat.cols) == 0 for b in model.values() for cat in b.values())
 
 
+def _compare_ignoring_empty(o, fl, f, model, clause, where):
+    """Deep comparison of a parsed file with the model in which categories without columns may
+    have been kept, skipped or renamed: only the categories with columns are compared."""
+    if not o.check_eq(list(f.keys()), list(model.keys()), clause, f"{where}: block names"):
+        return
+    for bk, b in model.items():
+        want = {ck: cat for ck, cat in b.items() if len(cat.cols) > 0}
+        got = [ck for ck in f[bk].keys() if ck in want]
+        if not o.check_eq(got, list(want), clause, f"{where}: categories with columns of block {bk!r}"):
+            return
+        for ck, cat in want.items():
+            _deep_compare(o, fl, f[bk][ck], cat, 2, clause, f"{where}: {bk}/{ck}")
+
+
 def _build_from_model(fl, node, level):
     if level == 0:
         return fl.make_file(node)
@@ -781,6 +873,39 @@ def _mask_only_variant(fl, node, level):
             real_cat[k] = fl.classes[3](list(data), np.array(mask, dtype=np.uint8))
             return fresh
     return None
+
+
+def _model_categories(node, level, cont=None):
+    """[(model category, real category or None)] below a model node of `level`."""
+    if level == 2:
+        return [(node, cont)]
+    if level == 1:
+        return [(c, None if cont is None else cont[k]) for k, c in node.items()]
+    return [(c, None if cont is None else cont[bk][ck]) for bk, b in node.items() for ck, c in b.items()]
+
+
+def _is_all_present(mask):
+    return mask is None or all(m == 0 for m in mask)
+
+
+def _all_present_masks(node, level):
+    """(binary flavour) does the model hold a column without any masked row?"""
+    return any(_is_all_present(p["mask"]) for cat, _ in _model_categories(node, level) for p in cat.cols.values())
+
+
+def _with_observed_mask_form(cont, node, level):
+    """(binary flavour) deep copy of the model in which every column without masked rows has the
+    mask form - ``None`` or an array of zeros - of the corresponding real column."""
+    node = copy.deepcopy(node)
+    for cat, real_cat in _model_categories(node, level, cont):
+        for k, p in cat.cols.items():
+            if _is_all_present(p["mask"]) and k in real_cat:
+                rmask = real_cat[k].mask
+                if rmask is None:
+                    p["mask"] = None
+                elif all(int(m) == 0 for m in rmask.array.tolist()):
+                    p["mask"] = [0] * len(p["data"])
+    return node
 
 
 def _reversed_model(node):
@@ -869,8 +994,10 @@ class _SetLabelOutcome(Outcome):
 
 
 def _probe_category_constructor(o, fl, model):
-    """A category built from a ``columns`` dict is a mapping of its own: using it neither changes the
-    caller's dict nor another category built from the same dict."""
+    """Building a category from a ``columns`` dict leaves the values of that dict as they are (the
+    coercion into column objects happens in the category, not in the caller's argument), and the new
+    category is a working mapping.  Whether the category keeps the given dict as its storage later on
+    (as blocks and files do with theirs) is not fixed anywhere: recorded as a label only."""
     for b in model.values():
         for cat in b.values():
             if len(cat.cols) < 2:
@@ -883,23 +1010,23 @@ def _probe_category_constructor(o, fl, model):
                     given[k] = list(v["data"])
                 else:
                     given[k] = fl.make_column(v)
-            before = [(k, type(v), copy.deepcopy(v) if isinstance(v, list) else id(v)) for k, v in given.items()]
+
+            def snapshot():
+                return [(k, type(v).__name__, copy.deepcopy(v) if isinstance(v, list) else id(v)) for k, v in given.items()]
+
+            before = snapshot()
             first = fl.classes[2](given)
-            second = fl.classes[2](given)
+            o.check_eq(snapshot(), before, "constructor_argument_unchanged", "the dict given as `columns`, right after the category was built")
             keys = list(cat.cols)
+            o.check_eq(list(first.keys()), keys, "category_is_its_own_mapping", "keys of a category built from a dict")
             del first[keys[0]]
             first["verif_added"] = fl.make_column(cat.cols[keys[1]])
-            after = [(k, type(v), copy.deepcopy(v) if isinstance(v, list) else id(v)) for k, v in given.items()]
-            o.check_eq(after, before, "category_is_its_own_mapping", "the dict given as `columns` after set/delete on the category")
-            o.check_eq(list(second.keys()), keys, "category_is_its_own_mapping", "second category built from the same dict")
             o.check_eq(list(first.keys()), keys[1:] + ["verif_added"], "category_is_its_own_mapping", "keys after delete + set")
-            o.label("constructor_dict_probe")
+            o.label("constructor_dict_probe", "constructor_dict_copied" if snapshot() == before else "constructor_dict_kept_as_storage")
             return
 
 
 def run_history(case, fl):
-    from biotite.file import SerializationError
-
     o = _SetLabelOutcome()
     model = {}
     for bi, rawblock in case["init"]:
@@ -937,8 +1064,16 @@ def run_history(case, fl):
         where = f"step {step} {name}"
         if name == "roundtrip":
             if _has_empty_category(model):
-                o.expect_raises(SerializationError, lambda: fl.roundtrip(real, op[1]), "empty_category_not_serializable", where)
-                o.label("roundtrip_refused_empty_category")
+                # A category without columns is no table of the property (>= 1 column): whether such a
+                # file is refused (as now) or written somehow is not judged.  If it is written, the
+                # tables with columns must come back unchanged; `real` itself is kept either way.
+                try:
+                    written = fl.roundtrip(real, op[1])
+                except Exception:
+                    o.label("roundtrip_refused_empty_category")
+                else:
+                    o.label("roundtrip_accepted_empty_category")
+                    _compare_ignoring_empty(o, fl, written, model, "roundtrip_keeps_nonempty_tables", where)
             else:
                 real = fl.roundtrip(real, op[1])
                 model = _unalias(model)  # aliases are separate objects after a round trip
@@ -984,11 +1119,14 @@ def run_history(case, fl):
                     else:
                         child = cont[key]
                         o.check(isinstance(child, fl.classes[level + 1]), "get_returns_stored", lambda: f"{where}: {type(child).__name__}")
-                        o.check(cont[key] is child, "get_returns_stored", f"{where}: second access gives another object")
                         if level < 2:
+                            # "The deserialized block/category objects are cached for subsequent accesses"
+                            o.check(cont[key] is child, "get_returns_stored", f"{where}: second access gives another object")
                             o.check_eq(list(child.keys()), list(_children(kids[key]).keys()), "get_returns_stored", where)
                         else:
+                            # (nothing says that a category hands out the same column *object* twice)
                             o.check_eq(fl.column_view(child), fl.model_column_view(kids[key]), "get_returns_stored", where)
+                            o.check_eq(fl.column_view(cont[key]), fl.model_column_view(kids[key]), "get_returns_stored", f"{where}: second access")
             elif name == "del":
                 key = MISSING_KEY if op[4] else pick_existing(node, op[3])
                 if key is None:
@@ -997,10 +1135,26 @@ def run_history(case, fl):
                 def delete():
                     del cont[key]
 
-                if level == 2 and fl.last_column_delete_raises and len(kids) == 1:
-                    # CIFCategory: "At least one column must remain" (checked before the key)
-                    o.expect_raises((ValueError, KeyError) if key == MISSING_KEY else (ValueError,), delete, "last_column_kept", where)
-                    o.label("del_last_column_refused")
+                if level == 2 and len(kids) == 1:
+                    # The last column of a category: the text flavour refuses with ValueError ("At least
+                    # one column must remain", checked before the key), the binary one deletes it.
+                    # Neither is documented, so both answers conform for both flavours; a refusal
+                    # must leave the category as it was.
+                    try:
+                        delete()
+                    except ValueError:
+                        o.label("del_last_column_refused")
+                        o.check_eq(list(cont.keys()), list(kids), "refused_delete_keeps_state", f"{where}: keys after the refused deletion")
+                        o.check_eq(len(cont), len(kids), "refused_delete_keeps_state", f"{where}: len after the refused deletion")
+                    except KeyError:
+                        o.check(key == MISSING_KEY, "missing_key_raises_keyerror", f"{where}: KeyError for the existing key {key!r}")
+                        o.check_eq(list(cont.keys()), list(kids), "refused_delete_keeps_state", f"{where}: keys after KeyError")
+                    else:
+                        if o.check(key != MISSING_KEY, "missing_key_raises_keyerror", f"{where}: deleting a missing key raised nothing"):
+                            del kids[key]
+                            o.label("del_done", "del_last_column_done")
+                            if lazy:
+                                mutated_after_lazy += 1
                 elif key == MISSING_KEY:
                     o.expect_raises(KeyError, delete, "missing_key_raises_keyerror", where)
                 else:
@@ -1026,7 +1180,15 @@ def run_history(case, fl):
                 values = list(cont.values())
                 o.check_eq(len(values), len(kids), "iteration_order", f"{where} values()")
                 for (k, child), v in zip(items, values):
-                    o.check(child is v and cont[k] is child, "get_returns_stored", f"{where}: items()/values()/[] disagree for {k!r}")
+                    if level < 2:
+                        o.check(child is v and cont[k] is child, "get_returns_stored", f"{where}: items()/values()/[] disagree for {k!r}")
+                    elif o.check(isinstance(child, fl.classes[3]) and isinstance(v, fl.classes[3]), "get_returns_stored", lambda: f"{where}: {type(child).__name__}"):
+                        want = fl.model_column_view(kids[k])
+                        o.check(
+                            fl.column_view(child) == want and fl.column_view(v) == want and fl.column_view(cont[k]) == want,
+                            "get_returns_stored",
+                            f"{where}: items()/values()/[] disagree for {k!r}",
+                        )
                     o.check(isinstance(child, fl.classes[level + 1]), "get_returns_stored", lambda: f"{where}: {type(child).__name__}")
             elif name == "eq":
                 fresh = _build_from_model(fl, node, level)
@@ -1035,6 +1197,14 @@ def run_history(case, fl):
                     _prime(fresh, level)
                     _prime(cont, level)
                     o.exclude(F3)
+                if fl.name == "bcif" and not (cont == fresh) and _all_present_masks(node, level):
+                    # "no mask" and an explicit all-PRESENT mask are the same table, but not
+                    # necessarily == as objects: a writer/reader may turn one form into the other.
+                    # Then the comparison is made with the form that the real columns show.
+                    fresh = _build_from_model(fl, _with_observed_mask_form(cont, node, level), level)
+                    if case.get("prime_fresh", True):
+                        _prime(fresh, level)
+                    o.label("eq_with_observed_mask_form")
                 o.check(cont == fresh, "equality", f"{where}: container != freshly built equal container")
                 o.check(not (cont != fresh), "equality", f"{where}: != is True for equal containers")
                 how = op[3] % 4
@@ -1061,6 +1231,72 @@ def run_history(case, fl):
                     _touch_all(same)
                     o.check(same == perm and not (same != perm), "equality_lazy_order_independent", f"{where}: parsed files with permuted insertion order compare unequal")
                     o.label("eq_permuted_lazy")
+            elif name == "pop":
+                key = MISSING_KEY if op[4] else pick_existing(node, op[3])
+                if key is None:
+                    key = MISSING_KEY
+                if key == MISSING_KEY:
+                    o.check(cont.pop(MISSING_KEY, sentinel) is sentinel, "missing_key_raises_keyerror", f"{where}: pop() with default")
+                    o.expect_raises(KeyError, lambda: cont.pop(MISSING_KEY), "missing_key_raises_keyerror", where)
+                else:
+                    try:
+                        child = cont.pop(key)
+                    except ValueError:
+                        # the last column of a category (see "del")
+                        if not (level == 2 and len(kids) == 1):
+                            raise
+                        o.label("del_last_column_refused")
+                        o.check_eq(list(cont.keys()), list(kids), "refused_delete_keeps_state", f"{where}: keys after the refused pop")
+                    else:
+                        if o.check(isinstance(child, fl.classes[level + 1]), "get_returns_stored", lambda: f"{where}: {type(child).__name__}"):
+                            if level < 2:
+                                o.check_eq(list(child.keys()), list(_children(kids[key]).keys()), "get_returns_stored", where)
+                            else:
+                                o.check_eq(fl.column_view(child), fl.model_column_view(kids[key]), "get_returns_stored", where)
+                        del kids[key]
+                        o.label("del_done")
+                        if lazy:
+                            mutated_after_lazy += 1
+            elif name in ("setdefault", "update"):
+                src = pick_existing(node, op[3])
+                if src is None:
+                    o.label("op_skipped_no_container")
+                    continue
+                key = POOLS[level][op[4] % len(POOLS[level])]
+                # the value: an independent, freshly built copy of the sibling `src`
+                if level == 0:
+                    sub = _unalias({"b": kids[src]})["b"]
+                    value = fl.make_block(sub)
+                elif level == 1:
+                    sub = _unalias({"b": {"c": kids[src]}})["b"]["c"]
+                    value = fl.make_category(sub)
+                else:
+                    sub = copy.deepcopy(kids[src])
+                    value = fl.make_column(sub)
+                if name == "update":
+                    cont.update({key: value})
+                    kids[key] = sub
+                elif key in kids:
+                    got = cont.setdefault(key, value)
+                    o.check(got is not value, "get_returns_stored", f"{where}: setdefault() on an existing key returned the default")
+                    if level < 2:
+                        o.check(got is cont[key], "get_returns_stored", f"{where}: setdefault() on an existing key did not return the stored child")
+                    o.label("setdefault_existing")
+                else:
+                    cont.setdefault(key, value)
+                    kids[key] = sub
+                    o.label("setdefault_adds")
+                if lazy:
+                    mutated_after_lazy += 1
+            elif name == "clear":
+                if level == 2:
+                    # (a category: meets the undocumented last-column rule half way - not driven)
+                    o.label("op_skipped_clear_on_category")
+                    continue
+                cont.clear()
+                kids.clear()
+                if lazy:
+                    mutated_after_lazy += 1
             elif name == "get_default":
                 o.check(cont.get(MISSING_KEY, sentinel) is sentinel, "missing_key_raises_keyerror", f"{where}: get() with default")
             elif name == "alias":
@@ -1079,8 +1315,16 @@ def run_history(case, fl):
                     o.label("op:alias_serialized")
                     key2 = POOLS[level][(op[4] + 1) % len(POOLS[level])]
                     ser = cont[src].serialize()
-                    cont[key] = ser
-                    cont[key2] = ser
+                    try:
+                        cont[key] = ser
+                        cont[key2] = ser
+                    except (TypeError, ValueError):
+                        # assigning the serialised form is accepted by __setitem__, but no docstring
+                        # offers it ("The values are ... objects"): a refusal conforms, too
+                        o.label("serialized_assignment_rejected")
+                        o.check_eq(list(cont.keys()), list(kids), "refused_set_keeps_state", f"{where}: keys after the refused assignment")
+                        serial_ok = False
+                if serial_ok:
                     # (serialisation also separates objects that were stored under two keys inside
                     # the child: the copies must not keep that aliasing)
                     def fresh_copy():
@@ -1091,21 +1335,49 @@ def run_history(case, fl):
                     kids[key] = fresh_copy()
                     kids[key2] = fresh_copy()
                 else:
-                    cont[key] = cont[src]
-                    kids[key] = kids[src]  # same object in the model, too
+                    child = cont[src]
+                    cont[key] = child
+                    if cont[key] is child:
+                        # stored by reference: a later set/delete through one key shows under the other
+                        kids[key] = kids[src]  # same object in the model, too
+                        o.label("alias_by_reference")
+                    else:
+                        # copy on insertion (nothing documents either way, nor how deep such a copy
+                        # would be): the copy must show the content of its source; then it is replaced
+                        # by an entry that shares nothing with `src`, which the model can describe
+                        sub = _unalias({"b": kids[src]})["b"] if level == 0 else _unalias({"b": {"c": kids[src]}})["b"]["c"]
+                        _deep_compare(o, fl, cont[key], sub, level + 1, "alias_copy_equals_source", where)
+                        cont[key] = fl.make_block(sub) if level == 0 else fl.make_category(sub)
+                        kids[key] = sub
+                        o.label("alias_copied_on_insert")
                 if lazy:
                     mutated_after_lazy += 1
             elif name == "set_wrong_type":
                 key = POOLS[level][op[3] % len(POOLS[level])]
                 wrong = fl.classes[2]() if level == 0 else fl.classes[1]()
 
-                def assign():
+                # A child of the wrong level: refused with TypeError today.  The refusal is promised
+                # nowhere, so any error - or none - is accepted; what is checked is that the container
+                # is as before after a refusal, or still a working mapping after an acceptance.
+                try:
                     cont[key] = wrong
-
-                o.expect_raises(TypeError, assign, "wrong_type_rejected", where)
+                except Exception as e:
+                    o.label("wrong_type_rejected:" + ("TypeError" if isinstance(e, TypeError) else "other"))
+                    o.check_eq(list(cont.keys()), list(kids), "refused_set_keeps_state", f"{where}: keys after the refused assignment")
+                else:
+                    o.label("wrong_type_accepted")
+                    o.check(key in cont, "containment", f"{where}: key of an accepted assignment is missing")
+                    # put the container back into a state the model can describe
+                    if key in kids:
+                        kids[key] = _unalias({"b": kids[key]})["b"] if level == 0 else _unalias({"b": {"c": kids[key]}})["b"]["c"]
+                        cont[key] = fl.make_block(kids[key]) if level == 0 else fl.make_category(kids[key])
+                    else:
+                        del cont[key]
             else:
                 raise AssertionError(name)
 
+        if not o.ok:
+            return o
         # ---- invariant after every step
         o.check_eq(list(real.keys()), list(model.keys()), "iteration_order", f"after {where}: block names")
         o.check_eq(len(real), len(model), "length", f"after {where}")
@@ -1151,8 +1423,11 @@ def st_long_tables(tier):
 
     @st.composite
     def gen(draw):
-        nrow = draw(st.one_of(st.integers(60, 70), st.integers(60, max_rows)))
+        nrow = draw(st.one_of(st.integers(60, 70), st.integers(60, max_rows), st.sampled_from([126, 127, 128, 129, 130, 133, 140])))
         ncol = draw(st.integers(1, 3))
+        # a third of the tables hold no quote character at all (the tokeniser - and any fast path put
+        # in front of it - branches on their presence in a line / in the table)
+        no_quote = draw(st.sampled_from([False, False, True]))
         cols = []
         used = set()
         for j in range(ncol):
@@ -1166,11 +1441,13 @@ def st_long_tables(tier):
                     cell[1] = cell[1] + draw(st.sampled_from(["zzzzzzzz", " zzzzzzz", "'zzzzzz", "_zzzzzzz"]))
                     cell[1], hit = narrow(cell[1])
                     cell[2] = sorted(set(cell[2]) | set(hit))
+                if no_quote:
+                    cell[1] = cell[1].replace("'", "q").replace('"', "Q")
                 cells[row] = cell
             i = draw(st.integers(0, len(NAME_POOL) - 1))
-            while NAME_POOL[i] in used:
+            while NAME_POOL[i].lower() in used:
                 i = (i + 1) % len(NAME_POOL)
-            used.add(NAME_POOL[i])
+            used.add(NAME_POOL[i].lower())
             cols.append({"name": NAME_POOL[i], "cells": cells, "explicit_mask": draw(st.booleans())})
         cat = {"name": draw(st.sampled_from(["atom_site", "a", "B[1][2]"])), "cols": cols}
         return _finish_table_case({"blocks": [{"name": "blk", "cats": [cat]}]})
@@ -1194,7 +1471,7 @@ SUBS = [
         run_table_roundtrip,
         quick=320,
         thorough=8000,
-        rule="looped category with 60..140 rows (thorough: up to 400) and awkward values at a few rows",
+        rule="looped category with 60..140 rows (thorough: up to 400; a third of the cases 126..140) and awkward values at a few rows",
         clauses="string table returned unchanged for long columns (row count dependent code paths)",
     ),
     Sub(
